@@ -354,13 +354,19 @@ func (c *converter) trackAddedIngress() {
 		ctx := convtypes.ResourceHAHostname
 		if port > 0 {
 			ctx = convtypes.ResourceHATCPService
+			c.trackTCPPort(convtypes.ResourceIngress, name, port)
 		}
-		if port == 0 {
-			for _, tls := range ing.Spec.TLS {
-				for _, hostname := range tls.Hosts {
-					// a tls entry changes a host, and its backends, declared elsewhere
-					c.tracker.TrackNames(convtypes.ResourceIngress, name, ctx, hostname)
+		for _, tls := range ing.Spec.TLS {
+			tlsHosts := tls.Hosts
+			if port > 0 && len(tlsHosts) == 0 {
+				tlsHosts = []string{""}
+			}
+			for _, hostname := range tlsHosts {
+				// a tls entry changes a host, and its backends, declared elsewhere
+				if port > 0 {
+					hostname = normalizeHostname(hostname, port)
 				}
+				c.tracker.TrackNames(convtypes.ResourceIngress, name, ctx, hostname)
 			}
 		}
 		for _, rule := range ing.Spec.Rules {
@@ -619,6 +625,7 @@ func (c *converter) syncIngressTCP(source *annotations.Source, ing *networking.I
 			}
 		}
 	}
+	c.trackTCPPort(source.Type, source.FullName(), tcpServicePort)
 	for _, tls := range ing.Spec.TLS {
 		secretName := tls.SecretName
 		tcpPort := c.haproxy.TCPServices().FindTCPPort(tcpServicePort)
@@ -633,18 +640,19 @@ func (c *converter) syncIngressTCP(source *annotations.Source, ing *networking.I
 			tlsHosts = []string{hatypes.DefaultHost}
 		}
 		for _, tlsHost := range tlsHosts {
-			if _, found := tcpPort.TLS[tlsHost]; !found {
-				tcpPort.TLS[tlsHost] = &hatypes.TCPServiceTLSConfig{
-					Hostname: tlsHost,
-					TLSConfig: hatypes.TLSConfig{
-						TLSFilename:   tlsPath.Filename,
-						TLSHash:       tlsPath.SHA1Hash,
-						TLSCommonName: tlsPath.Certificate.Subject.CommonName,
-						TLSNotAfter:   tlsPath.Certificate.NotAfter,
-						// tcp updater fills other tlsConfig fields, reading from annotation config
-					},
-				}
-			} else {
+			// the certificate of a hostname can be declared by another ingress than the one
+			// that declares its backend: both need to be parsed again if one of them changes
+			c.tracker.TrackNames(source.Type, source.FullName(), convtypes.ResourceHATCPService, normalizeHostname(tlsHost, tcpServicePort))
+			if !c.haproxy.TCPServices().AddTLS(tcpServicePort, &hatypes.TCPServiceTLSConfig{
+				Hostname: tlsHost,
+				TLSConfig: hatypes.TLSConfig{
+					TLSFilename:   tlsPath.Filename,
+					TLSHash:       tlsPath.SHA1Hash,
+					TLSCommonName: tlsPath.Certificate.Subject.CommonName,
+					TLSNotAfter:   tlsPath.Certificate.NotAfter,
+					// tcp updater fills other tlsConfig fields, reading from annotation config
+				},
+			}) {
 				msg := fmt.Sprintf("hostname on tcp service port :%d was already assigned", tcpServicePort)
 				if secretName != "" {
 					c.logger.Warn("skipping TLS secret '%s' on %v: %s", secretName, source, msg)
@@ -785,6 +793,13 @@ func (c *converter) addDefaultHostBackend(source *annotations.Source, fullSvcNam
 	host := c.addHost(hostname, source, annHost)
 	host.AddPath(backend, uri, match)
 	return nil
+}
+
+// trackTCPPort links a resource to the port of a TCP service. The hostnames of
+// a port share its configuration and its certificates, whoever declares them:
+// all the ingresses of the port are parsed again when one of them changes.
+func (c *converter) trackTCPPort(rtype convtypes.ResourceType, name string, port int) {
+	c.tracker.TrackNames(rtype, name, convtypes.ResourceHATCPService, ":"+strconv.Itoa(port))
 }
 
 func (c *converter) addTCPService(source *annotations.Source, hostname string, ann map[string]string) (*hatypes.TCPServiceHost, error) {
